@@ -2,6 +2,7 @@
 import z3, time, json, os, sys, traceback, hashlib, random
 from fractions import Fraction as Fr
 import multiprocessing as mp
+import gc
 from .values import CTX
 
 VERIF = os.path.dirname(os.path.dirname(os.path.abspath(__file__)))
@@ -58,9 +59,19 @@ class Obligation:
             self.assumptions += CTX.den_conds()
 
 
-def _check(assumptions, goal, timeout_ms):
+Z3_MEM_MB = int(os.environ.get('VERIF_Z3_MEM_MB', '6000'))
+
+
+def mk_solver(timeout_ms):
+    """a solver with a wall budget and a memory cap: an nlsat query that explodes comes back `unknown` (inconclusive) instead of exhausting the machine"""
     so = z3.Solver()
     so.set('timeout', int(timeout_ms))
+    so.set('max_memory', Z3_MEM_MB)
+    return so
+
+
+def _check(assumptions, goal, timeout_ms):
+    so = mk_solver(timeout_ms)
     so.add(assumptions)
     so.add(z3.Not(goal))
     t = time.time()
@@ -100,8 +111,7 @@ def _nice_model(ob, md, timeout_ms):
                 fix.append(v == int(val))
             elif isinstance(val, bool):
                 fix.append(v == val)
-        so = z3.Solver()
-        so.set('timeout', int(min(timeout_ms, 10000)))
+        so = mk_solver(min(timeout_ms, 10000))
         so.add(ob.assumptions)
         so.add(z3.Not(ob.goal))
         so.add(fix)
@@ -118,13 +128,18 @@ def discharge(ob, timeout_ms=None):
     res['solver_s'] = round(dt, 3)
     res['verdict'] = verdict
     if verdict == 'unknown':
-        # a loaded machine makes wall-clock timeouts bite: one retry with three times the budget before anything else
+        # a loaded machine makes wall-clock timeouts bite: one retry with three times the budget before anything else (the first solver is released first: z3's memory cap counts
+        # every live allocation of the process)
+        so = None
+        gc.collect()
         so_r, verdict_r, dt_r = _check(ob.assumptions, ob.goal, 3 * tmo)
         res['solver_s'] = round(res['solver_s'] + dt_r, 3)
         if verdict_r != 'unknown':
             so, verdict = so_r, verdict_r
             res['verdict'] = verdict
             res['retried'] = True
+        so_r = None
+        gc.collect()
     if verdict == 'unknown':
         # sat-finder portfolio: concretise variables at seeded rationals; only `sat` answers are used
         rnd = random.Random(SEED * 7919 + len(ob.name))
@@ -134,8 +149,9 @@ def discharge(ob, timeout_ms=None):
             frac = (0.5, 0.75, 1.0)[attempt % 3]
             pick = [v for v in reals if rnd.random() < frac]
             fix = [v == z3.RealVal(str(Fr(rnd.randint(1, 40), rnd.randint(1, 9)))) for v in pick]
-            so2 = z3.Solver()
-            so2.set('timeout', int(max(tmo // 6, 2000)))
+            so2 = None
+            gc.collect()
+            so2 = mk_solver(max(tmo // 6, 2000))
             so2.add(ob.assumptions)
             so2.add(fix)
             so2.add(z3.Not(ob.goal))
@@ -170,20 +186,22 @@ def discharge(ob, timeout_ms=None):
 def sat_check(constraints, timeout_ms=20000):
     """'sat' / 'unsat' / 'unknown' for a satisfiability (vacuity) question, robust against nlsat run-time variance: the full query under a wall cap, then variants in which the real
     variables are fixed to seeded rationals (a `sat` of a variant is a `sat` of the original; only the full query can say `unsat`)"""
-    so = z3.Solver()
-    so.set('timeout', int(timeout_ms))
+    so = mk_solver(timeout_ms)
     so.add(constraints)
     r = so.check()
     if r != z3.unknown:
         return str(r)
+    so = None
+    gc.collect()
     rnd = random.Random(SEED * 104729 + 7)
     vs = _vars_of(list(constraints))
     reals = [v for v in vs.values() if z3.is_real(v)]
     for attempt in range(8):
         frac = (0.4, 0.7, 0.9, 1.0)[attempt % 4]
         fix = [v == z3.RealVal(str(Fr(rnd.randint(1, 30), rnd.randint(1, 7)))) for v in reals if rnd.random() < frac and '!' not in v.decl().name()]
-        s2 = z3.Solver()
-        s2.set('timeout', int(max(timeout_ms // 4, 3000)))
+        s2 = None
+        gc.collect()
+        s2 = mk_solver(max(timeout_ms // 4, 3000))
         s2.add(constraints)
         s2.add(fix)
         if s2.check() == z3.sat:
